@@ -593,7 +593,13 @@ func (a *caiAn) nodeMethod(n vNode, name string, e *ast.CallExpr, st *cState) cV
 // return statement on a symbolic receiver.
 func (a *caiAn) evalASTMethod(m *types.Func, recv vNode, st *cState) (cVal, bool) {
 	fd := a.p.Decl(m)
-	if fd == nil || fd.Body == nil || len(fd.Body.List) != 1 || fd.Recv == nil || len(fd.Recv.List) != 1 || len(fd.Recv.List[0].Names) != 1 {
+	if fd == nil || fd.Body == nil || fd.Recv == nil || len(fd.Recv.List) != 1 || len(fd.Recv.List[0].Names) != 1 {
+		return nil, false
+	}
+	if v, ok := a.keyCollector(fd, recv); ok {
+		return v, true
+	}
+	if len(fd.Body.List) != 1 {
 		return nil, false
 	}
 	ret, ok := fd.Body.List[0].(*ast.ReturnStmt)
@@ -649,6 +655,91 @@ func (a *caiAn) evalASTMethod(m *types.Func, recv vNode, st *cState) (cVal, bool
 		vs = append(vs, v)
 	}
 	return vTuple{Vs: vs}, len(vs) > 0
+}
+
+// keyCollector recognises an accessor that returns every key of a receiver map
+// field exactly once (optionally sorted):
+//
+//	X := make([]T, 0, ...); for K := range recv.F { X = append(X, K) }; sort...(X, ...); return X
+//
+// Its result has the length of the field, which is what lets the emitted count
+// of a loop over it be related to len(recv.F).
+func (a *caiAn) keyCollector(fd *ast.FuncDecl, recv vNode) (cVal, bool) {
+	info := a.astP.TypesInfo
+	robj := info.Defs[fd.Recv.List[0].Names[0]]
+	l := fd.Body.List
+	if len(l) < 3 {
+		return nil, false
+	}
+	as, ok := l[0].(*ast.AssignStmt)
+	if !ok || as.Tok != token.DEFINE || len(as.Lhs) != 1 || len(as.Rhs) != 1 {
+		return nil, false
+	}
+	xid, ok := as.Lhs[0].(*ast.Ident)
+	if !ok {
+		return nil, false
+	}
+	xobj := info.Defs[xid]
+	mk, ok := as.Rhs[0].(*ast.CallExpr)
+	if !ok || !isBuiltinCall(info, mk, "make") || len(mk.Args) < 2 {
+		return nil, false
+	}
+	if z, isC := constInt(info, mk.Args[1]); !isC || z != 0 {
+		return nil, false
+	}
+	rs, ok := l[1].(*ast.RangeStmt)
+	if !ok || rs.Value != nil || len(rs.Body.List) != 1 {
+		return nil, false
+	}
+	fsel, ok := ast.Unparen(rs.X).(*ast.SelectorExpr)
+	if !ok {
+		return nil, false
+	}
+	if id, ok := fsel.X.(*ast.Ident); !ok || info.Uses[id] != robj {
+		return nil, false
+	}
+	fld := fieldOf(info, fsel)
+	if fld == nil {
+		return nil, false
+	}
+	if _, isMap := fld.Type().Underlying().(*types.Map); !isMap {
+		return nil, false
+	}
+	kid, ok := rs.Key.(*ast.Ident)
+	if !ok {
+		return nil, false
+	}
+	ap, ok := rs.Body.List[0].(*ast.AssignStmt)
+	if !ok || len(ap.Lhs) != 1 || len(ap.Rhs) != 1 || objOf(info, ap.Lhs[0]) != xobj {
+		return nil, false
+	}
+	ac, ok := ap.Rhs[0].(*ast.CallExpr)
+	if !ok || !isBuiltinCall(info, ac, "append") || len(ac.Args) != 2 || objOf(info, ac.Args[0]) != xobj || objOf(info, ac.Args[1]) != info.Defs[kid] {
+		return nil, false
+	}
+	for _, s := range l[2 : len(l)-1] {
+		es, ok := s.(*ast.ExprStmt)
+		if !ok {
+			return nil, false
+		}
+		ce, ok := es.X.(*ast.CallExpr)
+		if !ok || len(ce.Args) == 0 || objOf(info, ce.Args[0]) != xobj {
+			return nil, false
+		}
+		if cal := calleeOf(info, ce); cal == nil || cal.Pkg() == nil || (cal.Pkg().Path() != "sort" && cal.Pkg().Path() != "slices") {
+			return nil, false
+		}
+	}
+	ret, ok := l[len(l)-1].(*ast.ReturnStmt)
+	if !ok || len(ret.Results) != 1 || objOf(info, ret.Results[0]) != xobj {
+		return nil, false
+	}
+	sl, ok := xobj.Type().Underlying().(*types.Slice)
+	if !ok {
+		return nil, false
+	}
+	fsym := recv.Sym + "." + fld.Name()
+	return vSlice{Sym: fsym + "#keys", Elem: sl.Elem(), Len: Sym("len(" + fsym + ")")}, true
 }
 
 // isExprOfType: the value of IsExpression() for static type t, when it is the
